@@ -457,6 +457,12 @@ pub fn gen_case(seed: u64, shard: u64, run: u64, t: &Tier) -> Option<Case> {
         sparse: true,
     };
     let mut cell = gen::gen_robot(&mut w, &k);
+    if knobs.chance(0.4) {
+        // reversed joint directions (the limits are stated for the user-facing joint values)
+        for j in 0..6 {
+            cell.signs[j] = if knobs.chance(0.5) { 1 } else { -1 };
+        }
+    }
     cell.safety = gen::gen_safety(&mut w, cell.tool.is_some(), cell.base.is_some(), k.max_env, false, true);
     if cell.safety.mode == Mode::NoCheck && w.chance(0.7) {
         cell.safety.mode = Mode::First;
